@@ -4,6 +4,7 @@ import itertools
 
 from core import fseq, fseqs, fcells, fbool, pseq, guarded
 import c08
+import used
 
 PROP = "C05"
 RULE = ("a pattern list is one token (C08 pattern tokens joined by '+'); exhaustive: every sequence of <=3 perms of "
@@ -181,7 +182,10 @@ def class_meshes(ms, n):
 
 # ----------------------------------------------------------------------------- implementation
 def _objs(l):
-    return [c08.build(t) for t in toks(l)]
+    """the input patterns of a line, as *used* objects (every second one is warmed up: hashed, compared,
+    searched with - this fills whatever a pattern object memoises), built once per line (used.obj)"""
+    return [used.obj((i, t), lambda t=t: c08.build(t), c08.warm_value if i % 2 == 0 else None)
+            for i, t in enumerate(toks(l))]
 
 
 def _mv(o):
@@ -189,7 +193,7 @@ def _mv(o):
 
 
 def impl_props(l):
-    ps = [c08.build(t) for t in toks(l)]
+    ps = _objs(l)
     tup = lambda b: tuple(tuple(p) for p in b)  # noqa: E731
     b = tup(Basis(*ps))
     if tup(Basis(*reversed(ps))) != b:
@@ -263,8 +267,47 @@ def impl_avhist(items):
     return "|".join(outs)
 
 
+_TWICE = ("basis", "mbasis", "meshin", "fromstr", "strshift", "avbasis")
+
+
+def _neighbours(op, a):
+    """warm-up with a DIFFERENT nearby argument: the same constructor on the input without its last pattern and
+    on the reversed input (fresh objects; results discarded; class-level tables keep whatever they keep)"""
+    if op not in ("basis", "mbasis", "avbasis") or not a:
+        return
+    ts = toks(a[0])
+    for sub in (ts[:-1], ts[::-1][:2]):
+        if not sub:
+            continue
+        try:
+            objs = [c08.build(t) for t in sub]
+            if op == "basis":
+                Basis(*objs)
+            elif op == "mbasis":
+                MeshBasis(*objs)
+            else:
+                Av(objs).basis
+        except Exception:  # pylint: disable=broad-except
+            pass
+
+
 def impl(op, a):
     a = strip_tag(a)
+    used.begin()
+    if op not in _TWICE:
+        return _impl(op, a)
+    try:
+        _neighbours(op, a)
+        r1 = _impl(op, a)
+        used.T.rewind()
+        r2 = _impl(op, a)           # the same constructor call on the same, now used, pattern objects
+    finally:
+        if op == "avbasis":
+            Av.clear_cache()
+    return r1 if r1 == r2 else used.unstable(r1, r2)
+
+
+def _impl(op, a):
     if op == "basis":
         if any(t[0] != "P" for t in toks(a[0])):
             return "unsupported"
@@ -286,13 +329,11 @@ def impl(op, a):
     if op == "mprops":
         return guarded(lambda: impl_mprops(a[0]))
     if op == "meshin":
-        return guarded(lambda: fbool(c08.build(a[1]).contains(c08.build(a[0]))))
+        return guarded(lambda: fbool(used.obj((1, a[1]), lambda: c08.build(a[1]), c08.warm_value).contains(
+            used.obj((0, a[0]), lambda: c08.build(a[0]), c08.warm_value))))
     if op == "avbasis":
         def f():
-            try:
-                b = Av(_objs(a[0])).basis
-            finally:
-                Av.clear_cache()
+            b = Av(_objs(a[0])).basis      # impl() clears the class table after the second evaluation
             if isinstance(b, Basis):
                 return "S" + fseqs(b)
             return "T" + ("+".join("M" + fmesh(*m) for m in sorted((_mv(m) for m in b), key=meshkey)) if len(b) else "-")
